@@ -7,7 +7,11 @@ Ops (one output line each):
 * `init <n> <idseed>`            first op of a case: `n` uplinks, srtla id = `idBytes idseed`
 * `probe_start <now>`            only directly after `init` (the shell calls `start_probing` once, first)
 * `pkt <idx> <now> <type4hex> <len> <seed>`   datagram `take len (type ++ idBytes seed ++ 40×ee)` on uplink idx
+* `hkpkt …`                      same arguments as `pkt`, but the harness calls the real `handle_uplink_packet`
+                                 (which also transmits the immediate REG1); observation = datagrams per uplink
 * `tick <now> <rcs>`             one housekeeping pass; `rcs` = links taking the reconnect branch (`-` none)
+* `hktick <now> <rcs>`           the same pass, but the harness calls the real `handle_housekeeping` over loopback
+                                 sockets; observation = REG1/REG2 datagrams per uplink (`now ≥ 100000`)
 * atomic housekeeping steps: `clear <now>`, `pcheck <now>`, `hkrc <idx> <now>`, `drop <idx>`, `upd`, `drv <now>`
 -/
 namespace Srtla.Drv.Reg
@@ -18,6 +22,10 @@ structure DState where
   fresh : Bool := false
   n : Nat := 0
   sys : Sys := Sys.init [] [] 0
+  /-- per uplink: `connection_established_ms ≠ 0` (set by the first REG3 at a non-zero clock). Link
+  state outside the registration model; only used to decide which links the REAL housekeeping pass
+  (`hktick`) lets into its reconnect branch. -/
+  established : List Bool := []
 
 def DState.start : DState := {}
 
@@ -80,6 +88,16 @@ def showState (s : Sys) : String :=
 def obs (s : Sys) (out : List Send) : String :=
   "out=" ++ showSends s.reg.probeId out ++ " " ++ showState s
 
+/-- Wire view of one housekeeping pass: what arrives at each uplink's receiver (a broadcast reaches
+every uplink), in emission order, without the code path. -/
+def showWire (probeId : Bytes) (n : Nat) (out : List Send) : String :=
+  "|".intercalate ((List.range n).map fun i =>
+    let mine := out.filter fun s => s.kind = .bcast || s.target = i
+    toString i ++ ":[" ++ ",".intercalate (mine.map fun s =>
+      let body := s.pkt.drop 2
+      toHex (s.pkt.take 2) ++ ":" ++ toString s.pkt.length ++ ":" ++
+        (if body == probeId then "P" else idTag body)) ++ "]")
+
 /-- Parse a 4-hex-digit packet type. -/
 def parseType (t : String) : Option Nat :=
   match parseHex t with
@@ -104,7 +122,7 @@ def step (d : DState) (toks : List String) : DState × String :=
     | some n, some seed =>
       if d.inited || n > 8 then (d, "bad-op") else
       let s := Sys.init (idBytes seed) probeIdPlaceholder n
-      ({ inited := true, fresh := true, n := n, sys := s }, obs s [])
+      ({ inited := true, fresh := true, n := n, sys := s, established := List.replicate n false }, obs s [])
     | _, _ => (d, "bad-op")
   | ["probe_start", now] =>
     match now.toNat? with
@@ -117,13 +135,47 @@ def step (d : DState) (toks : List String) : DState × String :=
     match idx.toNat?, now.toNat?, parseType ty, len.toNat?, seed.toNat? with
     | some idx, some now, some ty, some len, some seed =>
       if !d.inited || idx ≥ d.n then (d, "bad-op") else
-      runEvs d [.pkt idx now (mkPacket ty len seed)]
+      let buf := mkPacket ty len seed
+      -- uplink_recv.rs REG3 arm: `if connection_established_ms == 0 { connection_established_ms = now }`
+      let est := if Codec.getPacketTypeS buf == some Gen.Proto.SRTLA_TYPE_REG3 && now != 0
+        then d.established.set idx true else d.established
+      runEvs { d with established := est } [.pkt idx now buf]
+    | _, _, _, _, _ => (d, "bad-op")
+  | ["hkpkt", idx, now, ty, len, seed] =>
+    -- the harness runs the REAL `handle_uplink_packet` for this op and reports the wire view
+    match idx.toNat?, now.toNat?, parseType ty, len.toNat?, seed.toNat? with
+    | some idx, some now, some ty, some len, some seed =>
+      if !d.inited || idx ≥ d.n then (d, "bad-op") else
+      let buf := mkPacket ty len seed
+      let est := if Codec.getPacketTypeS buf == some Gen.Proto.SRTLA_TYPE_REG3 && now != 0
+        then d.established.set idx true else d.established
+      let (s', out) := d.sys.run [.pkt idx now buf]
+      ({ d with sys := s', fresh := false, established := est },
+        "rx=" ++ showWire s'.reg.probeId d.n out ++ " " ++ showState s')
     | _, _, _, _, _ => (d, "bad-op")
   | ["tick", now, rcs] =>
     match now.toNat?, parseNatList rcs with
     | some now, some rcs =>
       if !d.inited || !allLt d.n rcs || !strictlyInc rcs then (d, "bad-op") else
       runEvs d (tickEvs now rcs)
+    | _, _ => (d, "bad-op")
+  | ["hktick", now, rcs] =>
+    -- the harness runs the REAL `handle_housekeeping` for this op and reports the wire view
+    match now.toNat?, parseNatList rcs with
+    | some now, some rcs =>
+      if !d.inited || now < 100000 || !allLt d.n rcs || !strictlyInc rcs then (d, "bad-op") else
+      -- housekeeping.rs: when probing completes in this pass the selected link gets a fresh start-up
+      -- grace period, so a never-established link is not timed out and skips its reconnect branch
+      let s1 := (d.sys.run [.clearTimeout now, .probeCheck now]).1
+      let completed := isProbing d.sys.reg && !isProbing s1.reg
+      let rcs' := if completed then
+          match s1.reg.target with
+          | some t => if d.established.getD t false then rcs else rcs.filter (· != t)
+          | none => rcs
+        else rcs
+      let (s', out) := d.sys.run (tickEvs now rcs')
+      ({ d with sys := s', fresh := false },
+        "rx=" ++ showWire s'.reg.probeId d.n out ++ " " ++ showState s')
     | _, _ => (d, "bad-op")
   | ["clear", now] =>
     match now.toNat? with
